@@ -1,4 +1,5 @@
 import SieveModel.Lemmas.ReplyLine
+import SieveModel.Lemmas.Listing
 /-!
 # C17 — Names and bodies come back exactly as the server holds them
 
@@ -9,8 +10,14 @@ import SieveModel.Lemmas.ReplyLine
   `OK`, `NO`, `BYE`, `{5}`, quotes, NUL, CR/LF mixes — the content handed to the caller is exactly those
   octets (completed with one CRLF when they do not end with one), the status is OK and exactly the bytes
   after the reply stay pending.
-Names in listings (quoted / literal encodings, the ACTIVE marker) are decided by the look-alike oracle
-against the reference server; literal-encoded names and quoted-string bodies are known findings.
+* `quoted_names_come_back_exactly` (client level): a LISTSCRIPTS reply whose names are sent as quoted strings —
+  any bytes but CR / LF, `\` and `"` escaped — is decoded to exactly those names, in order, with the one
+  marked ACTIVE reported as active; names that read `OK`, `NO x`, `{5}`, `x ACTIVE`, or hold quotes and
+  backslashes included.
+* `script_lines_come_back_exactly` / `…_without_final_newline` (client level): GETSCRIPT hands back the stored
+  lines (joined with LF), whatever they contain.
+Literal-encoded names and quoted-string bodies are known findings, decided by the look-alike oracle
+against the reference server.
 -/
 namespace C17
 open Reader
@@ -33,5 +40,41 @@ theorem literal_body_is_returned_exactly (nbl : Option Nat) (st : RState) (ds bo
 example : ∃ st', readResponse none { (default : RState) with buf := sb "{13}\r\nOK\r\nNO\r\n{3}\r\n\r\nOK\r\n" } =
     .ok (⟨some .OK, none, sb "OK\r\nNO\r\n{3}\r\n"⟩, st') ∧ pending st' = [] :=
   literal_body_is_returned_exactly none _ (sb "13") (sb "OK\r\nNO\r\n{3}\r\n") [] (by decide) (by decide) (by decide) (by decide)
+
+open Listing in
+/-- **names come back exactly** (LISTSCRIPTS, names as quoted strings), for every list of entries, every
+    split of the bytes between buffer and socket and every recv schedule -/
+theorem quoted_names_come_back_exactly (c : Client) (es : List Entry) (rest : Bytes)
+    (ha : c.authenticated = true) (hc : c.connected = true)
+    (hb : ∀ e ∈ es, NoBreak e.name) (hv : ∀ e ∈ es, Utf8.valid e.name = true)
+    (hp : pending (Client.afterWrites c (sb "LISTSCRIPTS") [] []).r = wire es ++ (sb "OK" ++ 13 :: 10 :: rest)) :
+    (Client.listscripts c).1 = .ok (some (activeOf es none, inactive es)) ∧ pending (Client.listscripts c).2.r = rest :=
+  listscripts_returns_the_listing c es rest ha hc hb hv hp
+
+open Listing in
+/-- non-vacuity: names that look like protocol (`OK`, `{5}`, `x ACTIVE`) or hold quotes and backslashes -/
+example : Client.parseListing (Client.splitLines (wire [⟨sb "OK", false⟩, ⟨sb "{5}", true⟩, ⟨sb "x ACTIVE", false⟩, ⟨sb "q\"uo\\te", false⟩]))
+    none [] = .ok (some (sb "{5}"), [sb "OK", sb "x ACTIVE", sb "q\"uo\\te"]) :=
+  listing_decodes _ (by decide +kernel) (by decide +kernel)
+
+open Listing in
+/-- **bodies come back exactly** (GETSCRIPT, script stored as CRLF-terminated lines) -/
+theorem script_lines_come_back_exactly (c : Client) (name : Bytes) (ls : List Bytes) (rest : Bytes)
+    (ha : c.authenticated = true) (hc : c.connected = true) (hne : ls ≠ [])
+    (hb : ∀ l ∈ ls, NoBreak l) (hv : ∀ l ∈ ls, Utf8.valid l = true)
+    (hp : pending (Client.afterWrites c (sb "GETSCRIPT") [.str name] []).r =
+            literalS (joinCRLF ls) ++ 13 :: 10 :: (sb "OK" ++ 13 :: 10 :: rest)) :
+    (Client.getscript c name).1 = .ok (some (Client.joinNl ls)) ∧ pending (Client.getscript c name).2.r = rest :=
+  getscript_returns_the_lines c name ls rest ha hc hne hb hv hp
+
+open Listing in
+/-- the same for a script whose last line has no line terminator -/
+theorem script_lines_come_back_exactly_without_final_newline (c : Client) (name : Bytes) (ls : List Bytes) (last rest : Bytes)
+    (ha : c.authenticated = true) (hc : c.connected = true) (hlast : last ≠ [])
+    (hb : ∀ l ∈ ls ++ [last], NoBreak l) (hv : ∀ l ∈ ls ++ [last], Utf8.valid l = true)
+    (hp : pending (Client.afterWrites c (sb "GETSCRIPT") [.str name] []).r =
+            literalS (joinCRLF ls ++ last) ++ 13 :: 10 :: (sb "OK" ++ 13 :: 10 :: rest)) :
+    (Client.getscript c name).1 = .ok (some (Client.joinNl (ls ++ [last]))) ∧ pending (Client.getscript c name).2.r = rest :=
+  getscript_returns_the_lines_open c name ls last rest ha hc hlast hb hv hp
 
 end C17
